@@ -203,7 +203,7 @@ def run(ctx):
     ctx.assumptions = ['byte-determinism of the codecs is exercised, not proved']
     drv = common.Driver()
     try:
-        for i in range(150 if ctx.tier == 'quick' else 3000):
+        for i in range(400 if ctx.tier == 'quick' else 3000):
             one_case(ctx, drv)
     finally:
         drv.close()
